@@ -418,7 +418,10 @@ def run(tier, seed):
         cap = 45000 if quick else 120000
         stress_cap = 12000 if quick else 60000
         n_stress = 0
-        for k, ((stream, t, m, full), r) in enumerate(zip(meta, impl)):
+        # cases on which the real parser did not terminate first (they must all reach the model), then the rest
+        order = sorted(range(len(meta)), key=lambda k: 0 if (impl[k] and "PANIC-IN-PARSER:VERIF-NO-PROGRESS" in impl[k]) else 1)
+        for k in order:
+            (stream, t, m, full), r = meta[k], impl[k]
             if not full or r is None or r.startswith("!") or len(g_in) >= cap:
                 continue
             if stream.startswith("exhaustive") and len(t.split()) >= 4:
